@@ -28,7 +28,7 @@ Definition mkU (m : Z) : Q := Qmake m 9007199254740992.
 
 (* wrapper executors: one call through a wrapper in front of a real breaker whose decision
    is forced, and what was observed *)
-Record wcall := mkWC { wc_kind : wkind; wc_rej : bool; wc_ctxdone : bool; wc_d : derr }.
+Record wcall := mkWC { wc_kind : wkind; wc_rej : bool; wc_ctx : wctx; wc_d : derr }.
 Record wobs := mkWO { wo_invoked : Z; wo_succ : Z; wo_fail : Z; wo_drop : Z; wo_seen : seen }.
 (* REST: next handler invoked?, what the client got *)
 Record robs := mkRO { ro_invoked : Z; ro_seen : rseen }.
@@ -208,7 +208,7 @@ Definition real_seen (k : wkind) (d : derr) (s : seen) : seen :=
   end.
 
 Definition wcall_agrees (c : wcall) (o : wobs) : bool :=
-  let r := wrap (wc_kind c) (wc_rej c) (wc_ctxdone c) (wc_d c) in
+  let r := wrapx (wc_kind c) (wc_rej c) (wc_ctx c) (wc_d c) in
   (wr_invoked r =? wo_invoked o) && (wr_succ r =? wo_succ o) && (wr_fail r =? wo_fail o) &&
   (wr_drop r =? wo_drop o) && seen_eqb (real_seen (wc_kind c) (wc_d c) (wr_seen r)) (wo_seen o).
 
@@ -285,13 +285,14 @@ Definition agrees (c : case) : bool :=
   match cnamed c with _ :: _ => multi_agrees c | [] =>
   match cwcalls c, crest c, csched c with
   | _ :: _, _, _ => all2 wcall_agrees (cwcalls c) (cwobs c)
-  | [], _ :: _, _ => rest_agrees_from cfg_gen (init_world cfg_gen (cbase c)) (crest c) (crobs c)
+  | [], _ :: _, _ => forallb (fun r => hout_wf (hq_out r)) (crest c) &&
+                     rest_agrees_from cfg_gen (init_world cfg_gen (cbase c)) (crest c) (crobs c)
   | [], [], [] => seq_agrees c
   | [], [], _ => conc_agrees c
   end end.
 
 Definition model_wobs (c : case) :=
-  (map (fun k => wrap (wc_kind k) (wc_rej k) (wc_ctxdone k) (wc_d k)) (cwcalls c),
+  (map (fun k => wrapx (wc_kind k) (wc_rej k) (wc_ctx k) (wc_d k)) (cwcalls c),
    rest_run cfg_gen (cbase c) (crest c)).
 
 Definition model_obs (c : case) :=
@@ -561,7 +562,10 @@ Definition wcall_prop (c : wcall) (o : wobs) : bool :=
   | WSqlPredicate => seen_eqb (wo_seen o) (SBool (negb (spec_is_failure k (wc_d c))))
   | WRedisIgnoredCmd => (wo_invoked o =? 1) && (wo_succ o + wo_fail o + wo_drop o =? 0)
   | _ =>
-    if (match k with WGrpcServerStream | WSqlM _ false => false | _ => wc_ctxdone c end) then
+    (* the context counts on entry only: done before the call => nothing happens; live on entry
+       => the call is judged by the site's table whatever the context has become on return *)
+    if (match k with WGrpcServerStream | WSqlM _ false => false
+        | _ => match wc_ctx c with XDone | XExpired => true | _ => false end end) then
       (wo_invoked o =? 0) && (wo_succ o =? 0) && (wo_fail o =? 0) && (wo_drop o =? 0) &&
       seen_eqb (wo_seen o) SCtxErr
     else if wc_rej c then
@@ -697,7 +701,8 @@ Definition prop_ok (c : case) : bool :=
   match cnamed c with _ :: _ => multi_prop_ok c | [] =>
   match cwcalls c, crest c, csched c with
   | _ :: _, _, _ => all2 wcall_prop (cwcalls c) (cwobs c)
-  | [], _ :: _, _ => rest_prop_from cfg_gen (mkGeom (cbase c) (bucket_duration cfg_gen) gen_buckets)
+  | [], _ :: _, _ => forallb (fun r => hout_wf (hq_out r)) (crest c) &&
+                     rest_prop_from cfg_gen (mkGeom (cbase c) (bucket_duration cfg_gen) gen_buckets)
                                     (mkP [] (cbase c) 0 false) (crest c) (crobs c)
   | [], [], [] => seq_prop_ok c
   | [], [], _ => conc_prop_ok c
